@@ -36,14 +36,7 @@ def table_ops(ig, live, field=TABLE_FIELD):
     return [a for a in A.atomic_ops(ig, live) if a.op != "fence" and L.deep_find(ig, a.obj, field) is not None]
 
 
-def callers(fb, callee_re):
-    rx = re.compile(callee_re)
-    out = []
-    for fn in fb.find(pred=lambda f: f.has_cfg()):
-        for bid, ev in fn.all_events():
-            if ev["e"] in ("call", "ctor") and rx.search(ev.get("callee", "") or ""):
-                out.append((fn, ev))
-    return out
+callers = L.callers
 
 
 def run(ctx):
@@ -193,15 +186,18 @@ def run(ctx):
             base_ok, iv = base_iv
             if not (isinstance(iv, dict) and iv.get("k") == "l"):
                 return None
-            defs = ig.local_defs(ig.frames[0], iv["id"])
-            init = [pstr(r) for n_, r, how in defs if how == "decl"]
+            # the loop may live in a helper expanded into this function: take it from the frame of the call and express
+            # start and bound in the caller's terms (a helper's parameters resolve to the caller's arguments)
+            fr = ig.frames[iv.get("fr", call_node.frame.id)] if "fr" in iv else call_node.frame
+            defs = ig.local_defs(fr, iv["id"])
+            init = [pstr(strip_cast(ig.resolve(r, fr))) for n_, r, how in defs if how == "decl"]
             # loop bound: the condition of the for header that tests this variable
             bound = None
-            for bid, b in fn.blocks.items():
+            for bid, b in fr.fn.blocks.items():
                 if b.get("term") == "ForStmt" and "cond" in b:
                     c = L.cmp_parts(b["cond"])
                     if c and strip_cast(c[1]).get("k") == "l" and strip_cast(c[1]).get("id") == iv["id"]:
-                        bound = (c[0], pstr(c[2]))
+                        bound = (c[0], pstr(strip_cast(ig.resolve(c[2], fr))))
             return base_ok, init, bound
         rc = [range_of(c) for c in cblocks]
         rd = [range_of(d) for d in dblocks]
